@@ -129,10 +129,42 @@ fn chain_defs(depth: usize, inner_body: &str) -> String {
     }
     s
 }
+/// edits that leave dsp's text alone and add / remove function definitions around it (dsp's place in the program's
+/// function table changes): (definitions in front of the helpers old, new, definitions after dsp old, new, what)
+const HALF: &str = "fn half(p) {\n  p * 0.5\n}\n";
+const ECHO: &str = "fn echo(p) {\n  delay(4.0, p, 2.0) + self\n}\n";
+const DEF_EDITS: [(&str, &str, &str, &str, &str); 7] = [
+    ("", "H", "", "", "a stateless function definition added in front"),
+    ("", "E", "", "", "a stateful function definition added in front"),
+    ("H", "", "", "", "a function definition in front removed"),
+    ("HE", "", "", "", "two function definitions in front removed"),
+    ("", "", "", "H", "a function definition added after dsp"),
+    ("H", "E", "", "", "a function definition in front replaced by another"),
+    ("", "H", "E", "", "one definition added in front, one after dsp removed"),
+];
+fn defs(code: &str) -> String {
+    code.chars().map(|c| if c == 'H' { HALF } else { ECHO }).collect()
+}
+fn n_defedits() -> u64 {
+    (DEF_EDITS.len() * VOICES.len() * 2) as u64
+}
 fn n_inner() -> u64 {
-    (DEPTHS.len() * INNER_EDITS.len() * VOICES.len() * 2) as u64
+    (DEPTHS.len() * INNER_EDITS.len() * VOICES.len() * 2) as u64 + n_defedits()
 }
 fn inner_case(k: u64) -> (String, String, String, usize) {
+    let base = (DEPTHS.len() * INNER_EDITS.len() * VOICES.len() * 2) as u64;
+    if k >= base {
+        let mut i = (k - base) as usize;
+        let third = i % 2;
+        i /= 2;
+        let v1 = i % VOICES.len();
+        i /= VOICES.len();
+        let (fo, fnew, ao, an, what) = DEF_EDITS[i];
+        let dsp = format!("fn dsp(x) {{\n  (cnt(1.0), {}, {})\n}}\n", VOICES[v1].0, if third == 0 { "0.0" } else { "dL(now)" });
+        let old = format!("{}{HELPERS}{dsp}{}", defs(fo), defs(ao));
+        let new = format!("{}{HELPERS}{dsp}{}", defs(fnew), defs(an));
+        return (old, new, format!("{what}; dsp unchanged: (cnt(1.0), {}, {})", VOICES[v1].0, if third == 0 { "0.0" } else { "dL(now)" }), 0);
+    }
     let mut i = k as usize;
     let third = i % 2;
     i /= 2;
@@ -274,7 +306,7 @@ impl C07 {
             nontrivial: traces > 0,
             outcome: if fails.is_empty() { "preserved".into() } else { "failed".into() },
             fails,
-            tags: vec!["edit_inner".into(), format!("chain_depth_{depth}")],
+            tags: if depth == 0 { vec!["edit_definitions".into()] } else { vec!["edit_inner".into(), format!("chain_depth_{depth}")] },
             repr: json!({"what": what, "old_source": old_src, "new_source": new_src}),
             counters: vec![("states".into(), states.len() as u64), ("transitions".into(), traces * (t as u64 + 1)), ("traces".into(), traces), ("edit_inner".into(), 1)],
         }
